@@ -31,7 +31,24 @@ def scenarios(quick):
     return out
 
 
+def model_scenarios(async_fix):
+    out = []
+    fns = [[fn(1, "R0", "E1", True)] * 3]
+    for st in ([retry(1, dly=2)], [fb(), retry(1, dly=2)]):
+        for t in (0, 1, 2, 3):
+            out.append(scenario(st, fns, [start(1, 0, False), env("CtxCancel", t, 1)], async_fix=async_fix))
+            for gap in (0, 1, 2):
+                out.append(scenario(st, fns, [start(1, 0, True), env("AsyncCancel", t, 1, gap=gap)], async_fix=async_fix))
+    return out
+
+
 def run(ctx):
+    import tmc
+    tscen.ASYNC_FIX = tscen.async_fix_in_code()
+    # TLC on the model alone: every schedule; the C08 predicates in every quiescent state. Negative control: with the
+    # two-step async Cancel of the unrepaired design the attribution predicate MUST fail on the model.
+    tmc.model_check(ctx, "cx", model_scenarios(True), ["MC_NoStuckThread", "MC_AllReturn", "MC_C08"])
+    tmc.model_check(ctx, "cx_neg", model_scenarios(False), ["MC_C08"], expect_violation="MC_C08")
     scs = scenarios(ctx.tier == "quick")
     p_c07.run_family(ctx, "cx", scs, props=("C08",))
     return vlib.finish(ctx, rule="7 compositions with a retry or hedge policy (with fallback, bulkhead wait, breaker) x cooperating/non-cooperating function x one cancellation source "
